@@ -6,7 +6,7 @@ PREDICATE = 'C02'
 LEAN_TARGETS = ['LLTD.Props.C02']
 VARIANT = 'plain'
 RULE = ('seeded histories (10..60 frames) mixing mostly-valid sessions of 1..4 stations, single-field mutations / truncations of '
-        'valid frames and pure noise 1:1:1, MTU in {576, 577, 1500, 9216, random}, wired and Wi-Fi attribute sets with names of '
+        'valid frames and pure noise 1:1:1, MTU in {576, 577, 1500, 9216, 1492, 576+0..39, random} (every residue of the descriptor sizes), bursts of observations filling a QueryResp to the MTU boundary, wired and Wi-Fi attribute sets with names of '
         'length 0..40; every history is run twice with fresh-memory poison 0x00 and 0xA5 and the transmitted bytes compared '
         '(determinism clause); non-trivial = at least one frame transmitted; distinct = distinct projected transcript')
 ASSUMPTIONS = ['port contract: getters deterministic during a run, string getters write at most dst_len bytes, 576 <= MTU <= 9216 = receive buffer size',
@@ -29,8 +29,22 @@ def attrs(rng):
     return kw
 
 
+def burst(rng, own, mtu):
+    """enough distinct observations to fill a QueryResp, then Queries (response sizes at the MTU boundary)"""
+    maxd = (mtu - 34) // 20
+    k = maxd + rng.choice([-1, 0, 1, 2, 5])
+    m = rng.choice(F.STATIONS)
+    fr = [F.discover(m, 1, 1)]
+    tag = rng.randrange(256)
+    fr += [F.probe('0e%02x%04x%04x' % (tag, i, rng.randrange(65536)), own, rng.choice(F.STATIONS), own, train=bool(i & 1)) for i in range(k)]
+    fr += [F.query(m, own, rng.randrange(1, 65536)) for _ in range(3)]
+    return fr
+
+
 def history(rng, own, mtu):
     fr = []
+    if mtu < 1600 and rng.random() < 0.35:
+        fr += burst(rng, own, mtu)
     for _ in range(rng.randint(1, 4)):
         s = F.session(rng, own, mtu=mtu)
         m = rng.random()
@@ -47,7 +61,7 @@ def cases(rng, tier, X):
     n = 250 if tier == 'quick' else 20000
     out = []
     for k in range(n):
-        mtu = rng.choice([576, 577, 1500, 9216, rng.randint(576, 9216)])
+        mtu = rng.choice([576, 577, 1500, 9216, 1492, 576 + rng.randrange(40), rng.randint(576, 9216)])
         own = rng.choice([F.OWN, F.OWN2, '00005e000001'])
         hostlen = rng.choice([0, 1, 6, 31, 32, 33, 40])
         g = F.glob_line(host=(''.join('%02x' % rng.randrange(1, 256) for _ in range(hostlen)) or '-'), hostrep=rng.choice(['copied', 'full']),
